@@ -12,30 +12,41 @@ N_ATOMS = 4
 ATOM_NAMES = ["N", "CA", "C", "O"]
 
 
-def model_topology():
+def model_topology(n_atoms=N_ATOMS):
+    names = (ATOM_NAMES * ((n_atoms + len(ATOM_NAMES) - 1) // len(ATOM_NAMES)))[:n_atoms]
     ats = [Obj(name=nm, serial=None if k == 1 else 100 + k, index=k, element=Obj(symbol=nm[0]),
-               residue=Obj(resSeq=7 + k // 2, name="RES%d" % (k // 2), index=k // 2, chain=Obj(index=0))) for k, nm in enumerate(ATOM_NAMES)]
-    top = Obj(tag="topology", n_atoms=N_ATOMS, _numAtoms=N_ATOMS, atoms=ats, _lenient=True)
+               residue=Obj(resSeq=7 + k // 2, name="RES%d" % (k // 2), index=k // 2, chain=Obj(index=0))) for k, nm in enumerate(names)]
+    top = Obj(tag="topology", n_atoms=n_atoms, _numAtoms=n_atoms, atoms=ats, _lenient=True)
     top.atom = lambda i_: ats[i_]
     return top
 
 
 class World:
-    """data of n frames: symbolic coordinates x[f,a,k], cell lengths L[f,k], cell vectors B[f,i,j], times t[f]; concrete angles"""
-    def __init__(self, n_frames, cell=True, ortho=False, time=True):
-        self.n = n_frames
-        self.x = Ten.sym("x", (n_frames, N_ATOMS, 3))
-        self.L = Ten.sym("L", (n_frames, 3)) if cell else None
-        # angles are concrete (whether a frame is rectangular is a fact of the world, not a case split): all 90 / all skewed / alternating
+    """data of n frames: symbolic coordinates x[f,a,k], cell lengths L[f,k], cell vectors B[f,i,j], times t[f]; concrete angles.
+    cell: False | True (symbolic lengths / vectors) | "triangular" (vectors in mdtraj's reduced form) | "small" / "large" (concrete rectangular cell
+    with all edges below / above 60 A)"""
+    def __init__(self, n_frames, cell=True, ortho=False, time=True, n_atoms=N_ATOMS):
+        self.n, self.n_atoms = n_frames, n_atoms
         ev = TenSym({})
+        self.x = Ten.sym("x", (n_frames, n_atoms, 3))
+        self.L = Ten.sym("L", (n_frames, 3)) if cell else None
+        if cell in ("small", "large"):
+            self.L = ev.to_ten([[30 + f, 40 + f, 50 + f] if cell == "small" else [70 + f, 80 + f, 95 + f] for f in range(n_frames)])
+            ortho = True
+        # angles are concrete (whether a frame is rectangular is a fact of the world, not a case split): all 90 / all skewed / alternating
         skew = [[80 - 3 * f, 70 + 2 * f, 60 + f] for f in range(n_frames)]
         rows = [[90, 90, 90] if (ortho is True or (ortho == "mixed" and f % 2 == 0)) else skew[f] for f in range(n_frames)]
         self.A = ev.to_ten(rows) if cell else None
         self.B = Ten.sym("B", (n_frames, 3, 3)) if cell else None
+        if cell == "triangular":
+            # mdtraj's own convention: a along x, b in the xy plane
+            for f in range(n_frames):
+                for (i, j) in ((0, 1), (0, 2), (1, 2)):
+                    self.B.data[f * 9 + i * 3 + j] = ev.lift(0)
         self.t = Ten.sym("t", (n_frames,)) if time else None
-        self.top = model_topology()
-        self.types = ["Ta", "Tb", "Tc", "Td"]
-        self._ev = TenSym({})
+        self.top = model_topology(n_atoms)
+        self.types = ["T%s" % chr(97 + k) for k in range(n_atoms)]
+        self._ev = ev
 
     def cut(self, arr, a, b):
         if arr is None:
@@ -53,6 +64,8 @@ class World:
             return dict(xyz=x, cell_lengths=self.cut(self.L, a, b), cell_angles=self.cut(self.A, a, b))
         if key == "gro":
             return dict(coordinates=x, topology=self.top, time=self.cut(self.t, a, b), unitcell_vectors=self.cut(self.B, a, b))
+        if key == "rst7":
+            return dict(coordinates=x, time=None if self.t is None else self.t.data[a], cell_lengths=self.cut(self.L, a, b), cell_angles=self.cut(self.A, a, b))
         raise KeyError(key)
 
 
@@ -66,7 +79,11 @@ def default_assume(text):
 
 
 def new_root():
-    return TenSym({})
+    """the evaluator all runs of one comparison hang off.  Its world is in general position: different symbolic expressions are different numbers
+    (a special relation between values - a zero component, equal lengths - is put into the world concretely, see World)"""
+    r = TenSym({})
+    r.generic_eq = True
+    return r
 
 
 def written(ctx, key, world, partition, root, assume=default_assume, me_extra=None, extra_args=None):
@@ -77,7 +94,8 @@ def written(ctx, key, world, partition, root, assume=default_assume, me_extra=No
     rec = []
     fh = Obj(tag="fh", _lenient=True)
     fh.write = lambda x_: rec.append(x_)
-    me = Obj(tag="file", _mode="w", _fh=fh, _file=fh, _open=True, distance_unit="angstroms", _w_has_box=None, _lenient=True, **(me_extra or {}))
+    fh.flush = lambda: None
+    me = Obj(tag="file", _mode="w", _fh=fh, _file=fh, _handle=fh, _open=True, _closed=False, _needs_initialization=True, distance_unit="angstroms", _w_has_box=None, _lenient=True, **(me_extra or {}))
     me._methods = {q.split(".", 1)[1]: f for q, f in mod.functions.items() if q.startswith(cls + ".") and q.count(".") == 1}
     me._isa = [cls]
     for a, b in partition:
@@ -164,8 +182,16 @@ def read_call(ctx, key, me, method, root, assume=default_assume, models=None, **
 def read_back(ctx, key, pieces, root, assume=default_assume, **kw):
     """read() of the format's file class evaluated on a model file that holds `pieces` (opened as the class opens it: mdcrd skips its title line)"""
     fh = text_file(pieces)
-    fields = {"mdcrd": dict(_n_atoms=N_ATOMS, _has_box=None), "gro": dict(n_atoms=N_ATOMS)}.get(key, {})
+    n_atoms = kw.pop("n_atoms", N_ATOMS)
+    fields = {"mdcrd": dict(_n_atoms=n_atoms, _has_box=None), "gro": dict(n_atoms=n_atoms)}.get(key, {})
     me = reader_object(ctx, key, fh, **fields)
     if key == "mdcrd":
         fh.readline()
     return read_call(ctx, key, me, "read", root, assume=assume, **kw), me
+
+
+def parse_lines(ctx, key, method, pieces, root, assume=default_assume, **fields):
+    """a parser that takes the list of the file's lines (f.readlines()): evaluated on the lines written"""
+    fh = text_file(pieces)
+    me = reader_object(ctx, key, fh, **fields)
+    return read_call(ctx, key, me, method, root, assume=assume, lines=list(fh._lines)), me
